@@ -504,3 +504,20 @@ pub async fn inl_async_caller(s: &St, x: u32) {
         inl_async_helper(s, x).await;
     }
 }
+
+// ------------------------------------------------------------------ lossy casts
+pub fn cast_bad_len(v: &[u8]) -> u16 {
+    v.len() as u16
+}
+
+pub fn cast_ok_masked(x: usize) -> u8 {
+    (x & 0x1f) as u8
+}
+
+pub fn cast_ok_mod(x: u64) -> u16 {
+    (x % 1000) as u16
+}
+
+pub fn cast_ok_guarded(x: usize) -> Option<u8> {
+    if x < 200 { Some(x as u8) } else { None }
+}
